@@ -45,8 +45,6 @@ Proof.
   - (* an exit marker leaves a with-mutex-lock: the deferred Unlock *)
     eexists; split; [eauto | split; [apply U | right; left; exists m; simpl; split; auto]]. rewrite ST. unfold locks_of; simpl.
     match goal with K : fk f = KLock m |- _ => rewrite K end. auto.
-  - (* the marker is dropped, the frame carries on *)
-    eexists; split; [eauto | split; [apply U | left; split; reflexivity]].
 Qed.
 
 Lemma lock_inv_init : forall p, lock_inv (init p).
